@@ -28,6 +28,24 @@ class RawRule(sym.Rule):
         if ev.kind == 'call' and ev.callee and (ev.callee.startswith('llvm.memcpy') or ev.callee.startswith('llvm.memmove')) \
                 and ev.fn is f and len(ev.args) >= 3:
             return rs + ((ev.args[0], ev.args[1], ev.args[2], ev.ins.line),)
+        if ev.kind == 'call' and ev.callee and ev.callee.startswith('llvm.memset') and ev.fn is not None \
+                and self.orc.is_gch(ev.fn.name) and len(ev.args) >= 1:
+            dst = ev.args[0]
+            roots = [a for a, c in dst[2]]
+            if roots and not any(r[0] == 'alloca' for r in roots):
+                # R13.4: a byte fill over element storage is not a value-initialisation for every
+                # trivially default constructible type (null pointers to data members are -1)
+                bn = base_name(ev.fn.pretty)
+                dk = ('memset', ev.fn.name, ev.ins.line)
+                self.sites += 1
+                if dk not in self.reports:
+                    self.reports[dk] = Report(
+                        'R13.4', False, {'function': bn, 'defect': 'element storage is byte-filled instead of value-initialised'},
+                        'R13.4: %s fills element storage with memset (line %d): for a trivially default constructible type whose '
+                        'value-initialised representation is not all-zero bytes the elements differ from value_type () (%s)'
+                        % (bn, ev.ins.line, self.cfg.name),
+                        {'function': ev.fn.pretty[:300], 'config': self.cfg.name, 'file': 'source/include/gch/small_vector.hpp'})
+            return rs
         return rs
 
     def on_exit(self, rs, kind, st, f, eng, rv=None):
@@ -78,7 +96,8 @@ def analyse_tu(eng, cfg):
     rule = RawRule(eng, cfg)
     n = 0
     for f in irrules.gch_roots(eng):
-        if not any(ins.op == 'call' and ins.callee and (ins.callee.startswith('@llvm.memcpy') or ins.callee.startswith('@llvm.memmove'))
+        if not any(ins.op == 'call' and ins.callee and (ins.callee.startswith('@llvm.memcpy') or ins.callee.startswith('@llvm.memmove')
+                                                         or ins.callee.startswith('@llvm.memset'))
                    for b, ins in f.instrs()):
             continue
         n += 1
